@@ -130,7 +130,9 @@ ApSeqNos(o, e) ==
   IF ~e.ok THEN [o EXCEPT !.mustdie = TRUE]
   ELSE LET latest == e.latest /\ \A v \in o.range : o.store[v] = NoOff
            ahead == ~latest /\ \E v \in o.range : o.store[v] # NoOff /\ o.store[v].seq > e.high[v]
-       IN [o EXCEPT !.high = e.high, !.mustdie = ahead, !.latest = e.latest]
+           \* the backend handed back documents for only part of the assignment
+           partial == e.partial /\ (\E v \in o.range : o.store[v] # NoOff) /\ (\E v \in o.range : o.store[v] = NoOff)
+       IN [o EXCEPT !.high = e.high, !.mustdie = ahead \/ partial, !.latest = e.latest]
 
 \* a start-up query failed (metadata.Load, failover log)
 ApFail(o, e) == [o EXCEPT !.mustdie = TRUE]
@@ -384,6 +386,17 @@ ApCloseReturn(o, e) ==
       o2 == Check(o1, lost = {}, "C13", "Close() returned but a position settled before the call is not stored")
   IN  Check(o2, open_ = {}, "C13", "Close() returned but a vBucket stream was never closed")
 
+\* the run is over: nothing is pending anywhere (every gate released, no timer armed, a last save done)
+ApQuiesced(o, e) ==
+  LET running == o.up /\ o.phase = "open" /\ ~o.closeCalled /\ ~o.stoppedSeen
+      o1 == IF running THEN Check(o, o.nbursts = o.ncycles, "C11",
+                                  "a burst of notifications was never followed by its close / re-open") ELSE o
+      o2 == IF running /\ o.range # {} /\ o.range \subseteq o.ended
+            THEN Viol(o1, "C12", "every assigned vBucket stream ended for good but the client did not stop") ELSE o1
+      o3 == IF o.closeCalled \/ o.stoppedSeen
+            THEN Check(o2, o.closeReturned, "C13", "Close() did not return although nothing was pending any more") ELSE o2
+  IN  o3
+
 ApDiedLife(o, e) ==
   IF o.closeCalled /\ ~o.closeReturned THEN Viol(o, "C13", "the client crashed inside Close()") ELSE o
 
@@ -416,6 +429,7 @@ Apply(o, e) ==
     [] e.ev = "Stopped"    -> ApStopped(o, e)
     [] e.ev = "CloseCall"  -> ApCloseCall(o, e)
     [] e.ev = "CloseReturn" -> ApCloseReturn(o, e)
+    [] e.ev = "Quiesced"   -> ApQuiesced(o, e)
     [] e.ev = "Load"       -> ApLoad(o, e)
     [] e.ev = "OpenReq"    -> ApOpenReq(o, e)
     [] e.ev = "OpenRet"    -> ApOpenRet(o, e)
